@@ -24,11 +24,19 @@ What the translation is (and what it refuses):
     integers as `Nat`, every checked `+ - * / %` a bind (`add32`, `subU`, `remU`, …), narrowing casts `% 2^w`
     (e.g. Argon2 `index_alpha`);
   * `if c {..} [else {..}]` statements duplicate the continuation (`if c then <then; rest> else <else; rest>`),
-    `assert!/assert_eq!` guard the continuation (`if c then … else <panic>`), `match <e> { lit => …, _ => … }` is an
-    `if` chain; `unreachable!()` / `panic!()` are the panic value of the kernel;
+    `assert!/assert_eq!` guard the continuation (`if c then … else <panic>`); `debug_assert!/debug_assert_eq!` are the same guard
+    written through the marker `debugAssert (c)` (lean/CxVerif/Util/DebugAssert.lean: the meaning under a DEBUG build; the generated
+    text differs from that of `assert!`, release builds are not modelled); `match <e> { lit => …, p | q => …, _ => … }` is an `if`
+    chain (an or-pattern is the disjunction of its alternatives; guards and range patterns are refused); `unreachable!()` /
+    `panic!()` are the panic value of the kernel; `return e;` (its own AST node) ends the FUNCTION: the continuation of an early
+    return is the function's result, not the rest of the enclosing blocks (refused in macro kernels, `select`ed bodies and loop
+    bodies rendered as lambdas / step functions); a block in statement position executes its trailing expression for its effect;
+  * `a && b` / `a || b` are rendered `∧ ∨` / `&& ||` with BOTH operands evaluated: accepted only if the right operand cannot fail
+    (no checked operation, slicing or panic in it);
   * constant-bound `for i in a..b` loops are unrolled with `i` substituted; `for _ in 0..n` over a state is emitted
     through the loop combinator named by the spec (`loop_fn`), `for i in 0..N` over one buffer as
-    `(List.finRange N).foldl <step>` where <step> is the kernel translated from the same loop body (`iloops`);
+    `(List.finRange N).foldl <step>` where <step> is the kernel translated from the same loop body (`iloops`) — in both cases it is
+    CHECKED that <step> is a kernel of the same spec module whose `select` returns exactly this loop's body (check_step_kernel);
     `for <pat> in <iter>` over `.iter()/.zip()/.rev()/.iter_mut()` becomes `List.foldl` / `List.zipWith` (`Tr.for_iter`;
     zips are only accepted between lists of the same length symbol, learnt from the types or an `assert_eq!` on `.len()`);
   * `X[a..b]` with constant bounds is guarded once per straight-line run by `b ≤ X.length` (else the panic value) unless the
@@ -37,8 +45,20 @@ What the translation is (and what it refuses):
   * positional `macro_rules!` macros (single arm, `$x:ident|expr|literal` parameters) are either expanded in place or
     called as the separately translated function `<macro>_src` (the parameters the body assigns are returned as a tuple
     and re-bound at the call site) — chosen per kernel by `macro_fns`.
+  * constant expressions are folded with rustc's meaning (`const_eval`: suffix types, `<<` wraps to the width with sign, `/ %`
+    truncate toward zero, overflow / zero divisor / shift count >= width are refused, typed results are range-checked);
+  * CHECKED `+ - *` on words rendered wrapping are accounted per source occurrence: `checked_ok` may be a dict operator -> number of
+    occurrences (exact match demanded); with the legacy string form a kernel that uses BOTH the checked and the `wrapping_*` form of
+    one operator is refused.  mode="int" without `monadic` renders `+ - *` as the mathematical Int operations WITHOUT any overflow
+    gate: the absence of overflow is then entirely a theorem of the unit (the spec's doc names it);
+  * refused: `#[cfg]`/`#[cfg_attr]` on statements, nested `fn` items unless a sibling kernel translates that very item, `let x = &mut
+    <place>` / `p = &mut <place>`, generic arguments in types, a call path with generic arguments (`T::<20>::f`) unless the spec
+    declares exactly that path, renaming imports of a name the kernel mentions, a macro defined twice in the file, an in-place macro
+    expansion whose body mentions a local variable of the call site (hygiene).
 Anything else raises TranslateError -> reported as a broken extraction; code is never silently skipped (statements a
 kernel deliberately leaves to another kernel must be named by the spec's `stmt_filter`).
+NOT checked: trait dispatch (which `impl` a method call reaches is the spec's `methods` table), and that a callee named in `calls`
+is the item the call resolves to when it is a module-level function of another file.
 """
 import os
 import re
@@ -81,9 +101,14 @@ def protect_bytestrings(text):
 def find_macro(src, name):
     """single-arm `macro_rules! name { (params) => { body }; }` -> ([(param, fragment)], body text)"""
     text = strip_comments(src)
-    m = re.search(r"macro_rules!\s+" + re.escape(name) + r"\s*\{", text)
-    if not m:
+    groups = KT.scan_braces(text)
+    ms = [m for m in re.finditer(r"macro_rules!\s+" + re.escape(name) + r"\s*\{", text) if KT.compiled_at(text, m.start(), groups) is not False]
+    if not ms:
         raise TranslateError(f"macro {name} not found")
+    if len(ms) > 1:
+        # textual scoping: which definition an invocation sees depends on their order; not modelled
+        raise TranslateError(f"macro {name} is defined {len(ms)} times in the file")
+    m = ms[0]
     i = m.end()
     depth, j = 1, i
     while j < len(text) and depth:
@@ -167,8 +192,8 @@ class P2(P):
             self.eat(")")
             return ("tuplety", items)
         t = super().ty()
-        if self.at("<"):                       # generic arguments: skipped structurally
-            d = 0
+        if self.at("<"):                       # generic arguments: not part of the returned type; recorded in self.dropped_generics
+            d, start = 0, self.i
             while True:
                 x = self.eat()[1]
                 d += (x == "<") - (x == ">")
@@ -176,6 +201,7 @@ class P2(P):
                     d -= 2
                 if d <= 0:
                     break
+            self.dropped_generics.append((t, untok(self.t[start:self.i])))
         return t
 
     def macro_args(self):
@@ -220,24 +246,16 @@ class P2(P):
         if self.atid("while") or self.atid("loop"):
             raise TranslateError("while/loop is outside the translated subset")
         if self.atid("let"):
-            self.eat()
-            pat = self.pattern()
-            ty = None
-            if self.at(":"):
-                self.eat(); ty = self.ty()
-            init = None
-            if self.at("="):
-                self.eat(); init = self.expr()
-            self.eat(";")
-            return ("let", pat, ty, init)
+            return self.let_stmt()             # ("let", pat, ty, init[, "refmut"])
         if self.atid("return"):
-            return super().stmt()
+            return self.return_stmt()          # ("return", e | None)
         e = self.expr()
         if self.at("=", "+=", "-=", "*=", "&=", "|=", "^=", "<<=", ">>="):
-            op = self.eat()[1]; rhs = self.expr()
+            op = self.eat()[1]; i0 = self.i; rhs = self.expr()
+            node = self.assign_node(e, op, rhs, i0)
             if not self.at("}"):
                 self.eat(";")
-            return ("assign", e, op, rhs)
+            return node
         if self.at(";"):
             self.eat(); return ("expr", e)
         return ("ret", e)               # trailing expression
@@ -286,10 +304,17 @@ class P2(P):
             self.eat(); scrut = self.expr_nostruct(); self.eat("{")
             arms = []
             while not self.at("}"):
-                if self.atid("_"):
+                if self.atid("_") and not (self.peek(1)[0] == "op" and self.peek(1)[1] == "|"):
                     self.eat(); pat = None
                 else:
-                    pat = self.expr_nostruct()
+                    # a PATTERN: alternatives `p | q` are an or-pattern (never the bitwise-or of two values); each alternative
+                    # is parsed at the precedence just above `|`
+                    alts = [self.match_alt()]
+                    while self.at("|"):
+                        self.eat(); alts.append(self.match_alt())
+                    pat = alts[0] if len(alts) == 1 else ("orpat", alts)
+                if self.atid("if"):
+                    raise TranslateError("match guards are outside the translated subset")
                 self.eat("="); self.eat(">")
                 if self.at("{"):
                     body = self.block_in_braces()
@@ -304,16 +329,20 @@ class P2(P):
             return ("match", scrut, arms)
         if p[0] == "id" and p[1] not in ("as",):
             self.eat(); name = p[1]
+            full = name
             while self.at("::"):
                 self.eat()
-                if self.at("<"):                # turbofish
-                    d = 0
+                if self.at("<"):                # turbofish: kept in the FULL path (3rd component of the node), not in the name
+                    d, start = 0, self.i
                     while True:
                         x = self.eat()[1]; d += (x == "<") - (x == ">")
                         if d == 0:
                             break
+                    full += "::" + untok(self.t[start:self.i]).replace(" ", "")
                     continue
-                name += "::" + self.eat()[1]
+                seg = self.eat()[1]
+                name += "::" + seg
+                full += "::" + seg
             if self.at("!") and self.peek(1)[0] == "op" and self.peek(1)[1] in "([{" and self.peek(1)[1] != "":
                 self.eat()
                 return ("macro", name, self.macro_args())
@@ -329,8 +358,22 @@ class P2(P):
                         self.eat()
                 self.eat("}")
                 return ("struct", name, fields)
+            if full != name:
+                return ("path", name, full)     # e.g. ("path", "ChaChaState::init", "ChaChaState::<20>::init")
             return ("path", name)
         return super().atom()
+
+    def match_alt(self):
+        if self.atid("_"):
+            raise TranslateError("`_` inside an or-pattern")
+        self.nostruct += 1
+        try:
+            e = self.expr(self.BIN.index(["|"]) + 1)
+        finally:
+            self.nostruct -= 1
+        if self.at("..", "..="):
+            raise TranslateError("range patterns are outside the translated subset")
+        return e
 
     def block(self):
         stmts = super().block()
@@ -396,7 +439,10 @@ class MK:
         self.result = kw.get("result")
         self.panic = kw.get("panic"); self.wrap_ok = kw.get("wrap_ok", lambda t: t)
         self.mode = kw.get("mode", "word"); self.monadic = kw.get("monadic", False)
-        self.checked_ok = set(kw.get("checked_ok", ""))
+        co = kw.get("checked_ok", "")
+        # str (legacy): every checked occurrence of the listed operators is accepted; dict op -> n: EXACTLY n source occurrences
+        self.checked_counts = dict(co) if isinstance(co, dict) else None
+        self.checked_ok = set(co)
         self.rot = dict(kw.get("rot", {}))
         self.macro_fns = dict(kw.get("macro_fns", {}))
         self.mut_calls = dict(kw.get("mut_calls", {}))
@@ -479,7 +525,9 @@ def lit_text(n, ty, mode_int=False):
             raise TranslateError(f"literal {n} out of range of {ty}")
         return f"({n} : {WORD[ty]})"
     if ty in SIGNED:
-        return f"({n} : Int)"
+        if not -2 ** (SIGNED[ty] - 1) <= n < 2 ** (SIGNED[ty] - 1):
+            raise TranslateError(f"literal / constant {n} out of range of {ty}")
+        return f"({n} : Int)" if n >= 0 else f"(-{-n} : Int)"
     if ty in ("usize", "nat"):
         return str(n)
     raise TranslateError(f"literal of unknown type {ty}")
@@ -512,6 +560,11 @@ class Tr:
         self.bstr_table = bstr_table or []
         self.tmpn = 0
         self.n_checked = 0
+        self.checked_sites = {}     # operator -> set of source occurrences (id of the right operand's AST node) rendered wrapping
+        self.wrapping_ops = set()   # operators whose `wrapping_*` method form occurs on words in this kernel
+        self.no_return = 0          # > 0 while translating a loop body rendered as a lambda / step function (`return` refused there)
+        self.fn_k = None            # the continuation that ends the FUNCTION (target of `return`)
+        self.all_stmts = None       # the statements of the whole function body (before select / stmt_filter)
         self.iloop_ids = {}
 
     # ---------- naming
@@ -584,25 +637,79 @@ class Tr:
         return isinstance(ty, str) and ty in SIGNED
 
     # ---------- compile-time integers (loop bounds, unrolled indices)
+    @staticmethod
+    def wrap_int(v, ty):
+        """two's-complement value of `v` in the integer type `ty` (what `as ty` / `<<` in that type leave)"""
+        b = INT_TYPES[ty]
+        if ty in SIGNED:
+            return (v + 2 ** (b - 1)) % 2 ** b - 2 ** (b - 1)
+        return v % 2 ** b
+
+    @staticmethod
+    def in_range(v, ty):
+        b = INT_TYPES[ty]
+        return -2 ** (b - 1) <= v < 2 ** (b - 1) if ty in SIGNED else 0 <= v < 2 ** b
+
     def const_int(self, e, st):
+        return self.const_eval(e, st)[0]
+
+    def const_eval(self, e, st):
+        """(value, integer type | None) of a constant expression, with the meaning rustc gives it: literals keep their suffix type,
+        `+ - *` that leave the type are rejected (rustc: `this arithmetic operation will overflow`), `/ %` truncate toward zero and
+        reject a zero divisor, `<<` wraps to the width of the LEFT operand's type (sign included), a shift count >= width is rejected,
+        `as T` wraps.  Untyped values (unsuffixed literals, loop counters) are exact integers; they are range-checked when they
+        are given a type (lit_text)."""
         k = e[0]
         if k == "lit":
-            return e[1]
+            if e[2] is not None:
+                if e[2] not in INT_TYPES:
+                    raise TranslateError(f"literal suffix {e[2]}")
+                if not self.in_range(e[1], e[2]):
+                    raise TranslateError(f"literal {e[1]} out of range of {e[2]}")
+            return e[1], e[2]
         if k == "paren":
-            return self.const_int(e[1], st)
+            return self.const_eval(e[1], st)
+        if k == "neg":
+            v, ty = self.const_eval(e[1], st)
+            if ty is not None and (ty not in SIGNED or not self.in_range(-v, ty)):
+                raise TranslateError(f"constant negation overflows / is unsigned ({ty})")
+            return -v, ty
         if k == "path":
             if st is not None and e[1] in st.vars and isinstance(st.vars[e[1]], V) and st.vars[e[1]].ty == "#const":
-                return st.vars[e[1]].t
+                return st.vars[e[1]].t, None
             base = e[1].split("::")[-1]
             if base in self.k.consts and isinstance(self.k.consts[base][0], int):
-                return self.k.consts[base][0]
+                cty = self.k.consts[base][1]
+                return self.k.consts[base][0], (cty if isinstance(cty, str) and cty in INT_TYPES and cty != "usize" else None)
             raise TranslateError(f"not a compile-time integer: {e[1]}")
         if k == "bin" and e[1] in ("+", "-", "*", "/", "%", "<<", ">>"):
-            a, b = self.const_int(e[2], st), self.const_int(e[3], st)
-            return {"+": a + b, "-": a - b, "*": a * b, "/": a // b if b else 0, "%": a % b if b else 0,
-                    "<<": a << b, ">>": a >> b}[e[1]]
+            (a, ta), (b, tb) = self.const_eval(e[2], st), self.const_eval(e[3], st)
+            op = e[1]
+            if op in ("<<", ">>"):
+                if b < 0 or (ta is not None and b >= INT_TYPES[ta]):
+                    raise TranslateError(f"constant shift count {b} out of range (rustc rejects it)")
+                if op == ">>":
+                    return a >> b, ta
+                return (self.wrap_int(a << b, ta) if ta is not None else a << b), ta
+            if ta is not None and tb is not None and ta != tb:
+                raise TranslateError(f"constant expression mixes {ta} and {tb}")
+            ty = ta or tb
+            if op in ("/", "%"):
+                if b == 0:
+                    raise TranslateError("constant division by zero (rustc rejects it)")
+                q = abs(a) // abs(b) * (1 if (a < 0) == (b < 0) else -1)          # Rust: truncation toward zero
+                v = q if op == "/" else a - q * b
+            else:
+                v = {"+": a + b, "-": a - b, "*": a * b}[op]
+            if ty is not None and not self.in_range(v, ty):
+                raise TranslateError(f"constant arithmetic overflows {ty} (rustc rejects it)")
+            return v, ty
         if k == "cast":
-            return self.const_int(e[1], st)
+            v, _ = self.const_eval(e[1], st)
+            to = e[2]
+            if not (isinstance(to, str) and to in INT_TYPES):
+                raise TranslateError("constant cast to a non-integer type")
+            return self.wrap_int(v, to), (None if to == "usize" else to)
         raise TranslateError("not a compile-time integer expression")
 
     def is_const_int(self, e, st):
@@ -682,6 +789,8 @@ class Tr:
                 return self.ex(e[1][0][1], st, want, out, ind)
             raise TranslateError("block expression with statements in value position")
         if k in ("path", "field", "index"):
+            if k == "path" and len(e) > 2:
+                raise TranslateError(f"path with generic arguments `{e[2]}` used as a value")
             if k == "path":
                 base = e[1].split("::")[-1]
                 if e[1] in st.vars and isinstance(st.vars[e[1]], V) and st.vars[e[1]].ty == "#const":
@@ -836,13 +945,23 @@ class Tr:
             sym = {"==": "=", "!=": "≠", "<": "<", "<=": "≤", ">": ">", ">=": "≥"}[e[1]]
             return f"{l.p()} {sym} {r.p()}"
         if k == "bin" and e[1] in ("&&", "||"):
-            return f"({self.cond(e[2], st, out, ind)}) {'∧' if e[1] == '&&' else '∨'} ({self.cond(e[3], st, out, ind)})"
+            lc = self.cond(e[2], st, out, ind)
+            n0 = len(out) if out is not None else 0
+            rc = self.cond(e[3], st, out, ind)
+            self.pure_right_operand(e, out, n0)
+            return f"({lc}) {'∧' if e[1] == '&&' else '∨'} ({rc})"
         if k == "not":
             return f"¬ ({self.cond(e[1], st, out, ind)})"
         v = self.ex(e, st, "bool", out, ind)
         if v.ty != "bool":
             raise TranslateError(f"condition of type {v.ty}")
         return f"{v.p()} = true" if self.k.cond_style == "prop" else v.t
+
+    def pure_right_operand(self, e, out, n0):
+        """`a && b` / `a || b` evaluate `b` only when `a` does not decide: rendered as ∧ / ∨ (both sides evaluated) this is faithful
+        only if evaluating `b` can neither fail nor emit a statement"""
+        if (out is not None and len(out) != n0) or self.has_slice_or_diverge(e[3]):
+            raise TranslateError(f"right operand of `{e[1]}` can fail (checked operation / slicing / panic): short-circuit evaluation is not modelled")
 
     def operands(self, l, r, st, want, out, ind):
         if l[0] == "lit" and l[2] is None and not (r[0] == "lit" and r[2] is None):
@@ -880,7 +999,10 @@ class Tr:
                 return V(f"{lv.p()} != {rv.p()}", "bool")
             return V(f"decide ({lv.p()} {op.replace('<=', '≤').replace('>=', '≥')} {rv.p()})", "bool")
         if op in ("&&", "||"):
-            lv = self.ex(l, st, "bool", out, ind); rv = self.ex(r, st, "bool", out, ind)
+            lv = self.ex(l, st, "bool", out, ind)
+            n0 = len(out) if out is not None else 0
+            rv = self.ex(r, st, "bool", out, ind)
+            self.pure_right_operand(("bin", op, l, r), out, n0)
             return V(f"{lv.p()} {op} {rv.p()}", "bool")
         if op == "+" and self.k.mode == "int" and self.k.monadic:
             terms = self.flatten_add(("bin", op, l, r))
@@ -917,6 +1039,7 @@ class Tr:
                 if op not in self.k.checked_ok:
                     raise TranslateError(f"checked `{op}` on {ty} (not declared overflow-free by the kernel spec)")
                 self.n_checked += 1
+                self.checked_sites.setdefault(op, set()).add(id(r))
                 return V(f"{lv.p()} {op} {rv.p()}", ty)
             raise TranslateError(f"operator {op} on {ty}")
         if self.is_int(ty):
@@ -996,6 +1119,13 @@ class Tr:
         if fpath is None:
             raise TranslateError("call of a non-path")
         fname = fpath.split("::")[-1]
+        if len(e[1]) > 2:
+            # `Type::<20>::f(..)`: the generic arguments select the callee; the spec must name the call by its FULL path
+            if e[1][2] not in self.k.calls:
+                raise TranslateError(f"call of `{e[1][2]}`: a path with generic arguments must be declared by the kernel spec under exactly that path")
+            tmpl, rty, argtys = self.k.calls[e[1][2]]
+            vs = self.call_args(e[2], argtys, st, out, ind)
+            return V(self.fmt(tmpl, vs), rty)
         if fname in self.k.ctors and (fpath == fname or fpath.startswith("Self")):
             tmpl, rty, argtys = self.k.ctors[fname]
             vs = self.call_args(e[2], argtys, st, out, ind)
@@ -1036,6 +1166,7 @@ class Tr:
                 if a.ty != ty:
                     raise TranslateError(f"{name}: operand types {ty} / {a.ty}")
                 sym = {"wrapping_add": "+", "wrapping_sub": "-", "wrapping_mul": "*"}[name]
+                self.wrapping_ops.add(sym)
                 return V(f"{rv.p()} {sym} {a.p()}", ty)
             if name == "wrapping_neg":
                 return V(f"{lit_text(0, ty)} - {rv.p()}", ty)
@@ -1184,6 +1315,8 @@ class Tr:
             return self.do_let(s, st, out, ind, rest)
         if kind == "assign":
             lhs, op, rhs = s[1], s[2], s[3]
+            if len(s) > 4:
+                raise TranslateError("`p = &mut <place>` creates a mutable alias: writes through it would be lost (not translated)")
             if op == "=" and rhs[0] == "array":
                 key = self.place_key(lhs, st)
                 old = st.vars.get(key)
@@ -1224,11 +1357,20 @@ class Tr:
             return rest(st, out, ind)
         if kind == "ret":
             if i != len(stmts) - 1:
-                raise TranslateError("early return")
+                raise TranslateError("value expression before the end of a block")
             e = s[1]
             if e[0] in ("if", "match", "blockexpr", "macro") and self.is_stmt_like(e):
                 return self.do_expr_stmt(e, st, out, ind, k, tail=True)
             return k(st, out, ind, e)
+        if kind == "return":
+            # `return e;` leaves the FUNCTION: the continuation is the end of the function, not the rest of the enclosing blocks
+            if self.fn_k is None or self.no_return:
+                raise TranslateError("`return` inside a loop body / macro body that is rendered as a separate function")
+            if i != len(stmts) - 1:
+                raise TranslateError("statements after `return` (unreachable code)")
+            return self.fn_k(st, out, ind, s[1])
+        if kind == "fnitem":
+            raise TranslateError(f"nested `fn {s[1]}` inside a block of the translated body")
         if kind == "expr":
             return self.do_expr_stmt(s[1], st, out, ind, rest, tail=False)
         if kind == "for":
@@ -1253,7 +1395,11 @@ class Tr:
         pat, ty, init = s[1], s[2], s[3]
         ty = self.norm_ty(ty) if ty is not None else None
         if pat[0] == "tuple":
+            if len(s) > 4:
+                raise TranslateError("`let (..) = (&mut <place>, ..)` creates mutable aliases (not translated)")
             return self.do_let_tuple(pat, ty, init, st, out, ind, rest)
+        if len(s) > 4:
+            raise TranslateError("`let x = &mut <place>` creates a mutable alias: writes through it would be lost (not translated)")
         name = pat[1]
         if len(st.scopes) > 1 and name in st.vars and name not in st.scopes[-1]:
             raise TranslateError(f"`let {name}` in a nested block shadows an outer binding (not supported)")
@@ -1374,9 +1520,10 @@ class Tr:
                 out.append(f"{ind}else")
                 arm(body, st.copy(), out, ind + "  ")
                 return
-            pv = self.ex(p_, st, sv.ty, out, ind)
-            out.append(f"{ind}{'if' if first else 'else if'} {sv.p()} = {pv.p()} then")
-            st_arm = st.copy(); self.learn_len(("bin", "==", scrut, p_), st_arm, out, ind)
+            out.append(f"{ind}{'if' if first else 'else if'} {self.pat_cond(sv, p_, st, out, ind)} then")
+            st_arm = st.copy()
+            if p_[0] != "orpat":
+                self.learn_len(("bin", "==", scrut, p_), st_arm, out, ind)
             arm(body, st_arm, out, ind + "  ")
             first = False
         raise TranslateError("match without a `_` arm")
@@ -1478,20 +1625,30 @@ class Tr:
             return k(st2, out2, ind2, r)
         return self.seq(blk, 0, st, out, ind, after)
 
+    @staticmethod
+    def stmt_block(blk, tail):
+        """a block in STATEMENT position has no value: its trailing expression (no `;`) is an expression statement — it is executed
+        for its effect (or refused by do_expr_stmt), never dropped"""
+        if not tail and blk and blk[-1][0] == "ret":
+            return list(blk[:-1]) + [("expr", blk[-1][1])]
+        return blk
+
     def do_expr_stmt(self, e, st, out, ind, k, tail):
         kind = e[0]
         if kind == "blockexpr":
-            return self.do_block(e[1], st, out, ind, k)
+            return self.do_block(self.stmt_block(e[1], tail), st, out, ind, k)
         if kind == "if":
             c = self.cond(e[1], st, out, ind)
             out.append(f"{ind}if {c} then")
             st_then = st.copy()
             self.learn_len(e[1], st_then, out, ind)
-            self.do_block(e[2], st_then, out, ind + "  ", k)
+            self.do_block(self.stmt_block(e[2], tail), st_then, out, ind + "  ", k)
             out.append(f"{ind}else")
-            self.do_block(e[3] if e[3] is not None else [], st.copy(), out, ind + "  ", k)
+            self.do_block(self.stmt_block(e[3], tail) if e[3] is not None else [], st.copy(), out, ind + "  ", k)
             return
         if kind == "match":
+            if not tail:
+                e = ("match", e[1], [(p_, self.stmt_block(b_, tail)) for p_, b_ in e[2]])
             return self.do_match(e, st, out, ind, k)
         if kind == "macro":
             return self.do_macro(e, st, out, ind, k)
@@ -1575,13 +1732,19 @@ class Tr:
                 out.append(f"{ind}else")
                 self.do_block(body, st.copy(), out, ind + "  ", k)
                 return
-            pv = self.ex(pat, st, sv.ty, out, ind)
-            out.append(f"{ind}{'if' if first else 'else if'} {sv.p()} = {pv.p()} then")
+            out.append(f"{ind}{'if' if first else 'else if'} {self.pat_cond(sv, pat, st, out, ind)} then")
             st_arm = st.copy()
-            self.learn_len(("bin", "==", scrut, pat), st_arm, out, ind)
+            if pat[0] != "orpat":
+                self.learn_len(("bin", "==", scrut, pat), st_arm, out, ind)
             self.do_block(body, st_arm, out, ind + "  ", k)
             first = False
         raise TranslateError("match without a `_` arm")
+
+    def pat_cond(self, sv, pat, st, out, ind):
+        """the test of one match arm: `scrutinee = p`, or for an or-pattern `p | q` the disjunction of the alternatives"""
+        alts = pat[1] if pat[0] == "orpat" else [pat]
+        pvs = [self.ex(a, st, sv.ty, out, ind) for a in alts]
+        return " ∨ ".join(f"{sv.p()} = {pv.p()}" for pv in pvs)
 
     def do_macro(self, e, st, out, ind, k):
         name, args = e[1], e[2]
@@ -1594,6 +1757,10 @@ class Tr:
                 c = self.cond(("bin", "==", a, b), st, out, ind)
             else:
                 c = self.cond(P2(args[0]).expr(), st, out, ind)
+            if name.startswith("debug_"):
+                # checked only when `debug_assertions` is on: rendered through the marker `debugAssert` (Util/DebugAssert.lean: the same
+                # guard, i.e. the meaning under a debug build) so that `assert!` <-> `debug_assert!` is a change of the generated text
+                c = f"debugAssert ({c})" if self.k.cond_style == "prop" else f"debugAssertB ({c})"
             out.append(f"{ind}if {c} then")
             st_ok = st.copy()
             if name.endswith("_eq") and all(x[0] == "method" and x[2] == "len" for x in (a, b)):
@@ -1608,10 +1775,62 @@ class Tr:
         argtexts = [untok(a) for a in args]
         if name in self.k.macro_fns:
             return self.macro_call(name, params, body, args, st, out, ind, k)
+        self.macro_hygiene(name, params, body, st)
         text = macro_subst(body, params, argtexts)
         text, tbl = protect_bytestrings(text)
-        stmts = P2(lex(text)).block()
+        mp = P2(lex(text)); mp.fnitems = True
+        stmts = mp.block()
         return self.do_block(stmts, st, out, ind, k)
+
+    _free_cache = None
+
+    def macro_hygiene(self, name, params, body, st):
+        """the macro is expanded at the call site textually; in Rust an identifier written in the macro BODY never refers to a local
+        variable of the caller (hygiene).  Refuse an expansion in which such an identifier would be captured by a caller's local."""
+        if self._free_cache is None:
+            self._free_cache = {}
+        if name not in self._free_cache:
+            text = macro_subst(body, params, [f"__mp{j}" for j in range(len(params))])
+            stmts = P2(lex(protect_bytestrings(text)[0])).block()
+            bound, free = set(), set()
+
+            def pat_names(p_):
+                if p_[0] == "var":
+                    bound.add(p_[1])
+                elif p_[0] == "tuple":
+                    for q in p_[1]:
+                        pat_names(q)
+
+            def walk(x, head=False):
+                if isinstance(x, tuple):
+                    if x and x[0] == "let":
+                        walk(x[3]); pat_names(x[1]); return
+                    if x and x[0] == "for" and isinstance(x[1], tuple):
+                        pat_names(x[1])
+                    if x and x[0] == "path":
+                        if "::" not in x[1] and not x[1].startswith("__mp") and x[1] not in bound and not head:
+                            free.add(x[1])
+                        return
+                    if x and x[0] == "call":
+                        walk(x[1], head=True)
+                        for a in x[2]:
+                            walk(a)
+                        return
+                    if x and x[0] == "macro":
+                        for a in x[2]:
+                            free.update(t[1] for t in a if t[0] == "id" and not t[1].startswith("__mp") and t[1] not in bound)
+                        return
+                    for y in x[1:]:
+                        walk(y)
+                elif isinstance(x, list):
+                    for y in x:
+                        walk(y)
+            walk(stmts)
+            self._free_cache[name] = free
+        for n in sorted(self._free_cache[name]):
+            if n in st.vars:
+                raise TranslateError(f"macro {name}!: its body mentions `{n}`, which is a local variable at this call site — macro hygiene: "
+                                     "the body cannot see the caller's locals, textual expansion would capture it")
 
     def macro_assigned(self, name, _seen=()):
         """indices of the parameters a macro body assigns (directly or through nested macro calls)"""
@@ -1792,6 +2011,7 @@ class Tr:
                 if not (lo_e[0] == "lit" and lo_e[1] == 0) or pat[0] != "var":
                     raise TranslateError("indexed loop must be `for i in 0..N`")
                 n = self.const_int(hi_e, st)
+                self.check_step_kernel(step, s)
                 state = self.assigned_in(body, st)
                 if len(state) != 1:
                     raise TranslateError("indexed loop with a state of more than one place")
@@ -1802,6 +2022,7 @@ class Tr:
                 if not (lo_e[0] == "lit" and lo_e[1] == 0):
                     raise TranslateError("counted loop must start at 0")
                 comb, step, pack, unpack_pat = self.k.loop_fn
+                self.check_step_kernel(step, s)
                 state = self.assigned_in(body, st)
                 cnt = self.ex(hi_e, st, "usize", out, ind)
                 cur = [self.ex(self.parse_place(p), st, None, out, ind) for p in state]
@@ -1813,6 +2034,27 @@ class Tr:
                 return rest(st, out, ind)
             raise TranslateError("range loop with non-constant bounds")
         return self.for_iter(pat, it, body, st, out, ind, rest)
+
+    def check_step_kernel(self, step, loop):
+        """the loop is rendered `<combinator> <step> …` without its body: sound only if <step> IS the definition generated from this
+        very body.  Demanded: a kernel of the same spec module named <step>, same file / fn / kind, whose `select` applied to the
+        statements of this function returns (the statements before the loop, when the loop is at top level, followed by) exactly
+        the statements of this loop body."""
+        body = loop[3]
+        sib = next((x for x in KT.sibling_kernels(self.k) if getattr(x, "lean_name", None) == step.split(".")[-1]), None)
+        if sib is None:
+            raise TranslateError(f"loop step `{step}`: no kernel of this spec module generates it (the loop body would be untranslated)")
+        if (sib.file, sib.fn, getattr(sib, "kind", "fn")) != (self.k.file, self.k.fn, self.k.kind) or getattr(sib, "select", None) is None:
+            raise TranslateError(f"loop step `{step}` is not translated from the body of this loop (other file / fn, or no `select`)")
+        sel = sib.select(list(self.all_stmts))
+        top = next((j for j, x in enumerate(self.all_stmts) if x is loop), None)
+        ok = len(sel) >= len(body) and sel[len(sel) - len(body):] == body
+        if ok and top is not None and len(sel) > len(body):
+            ok = sel[:len(sel) - len(body)] == [x for x in self.all_stmts[:top]]
+        elif ok and len(sel) > len(body):
+            ok = False
+        if not ok:
+            raise TranslateError(f"loop step `{step}` is generated from other statements than the body of this loop")
 
     def parse_place(self, text):
         return P2(lex(text)).expr()
@@ -1937,7 +2179,11 @@ class Tr:
 
         def fin(st3, out3, ind3, _r=None):
             out3.append(f"{ind3}{st3.vars[acc].t}")
-        self.seq(body, 0, st2, inner, ind + "    ", fin)
+        self.no_return += 1
+        try:
+            self.seq(body, 0, st2, inner, ind + "    ", fin)
+        finally:
+            self.no_return -= 1
         if len(inner) == 2 and inner[0].lstrip().startswith(f"let ") and inner[1].strip() == inner[0].split(":=")[0].replace("let", "").strip():
             lam_body = inner[0].split(":=", 1)[1].strip()
             text = f"{ltext}.foldl (fun {accn} {en} => {lam_body}) {accv.p()}"
@@ -2136,13 +2382,29 @@ def translate(k: MK):
     else:
         _, body = find_fn(src, k.fn, k.scope)
     body, btab = protect_bytestrings(body)
-    stmts = P2(lex(body)).block()
+    toks = lex(body)
+    KT.refuse_renaming_uses(strip_comments(src), KT.body_idents(toks) | {c.split("::")[-1] for c in list(k.calls) + list(k.mut_calls) + list(k.stmt_calls)},
+                            f"{k.file}: {k.kind} {k.fn}")
+    parser = P2(toks)
+    parser.fnitems = True
+    stmts = parser.block()
+    if parser.peek()[0] != "eof":
+        raise TranslateError(f"unparsed tokens after the body of {k.fn}: {parser.peek()[1]!r}")
+    if parser.dropped_generics:
+        raise TranslateError(f"generic arguments in a type (`{parser.dropped_generics[0][0]}{parser.dropped_generics[0][1]}`) are not translated")
+    for s in stmts:
+        if s[0] == "fnitem":
+            # accepted only if a kernel of this spec translates that very item (the callee a call in this body really reaches)
+            KT.check_nested_fn(k, s[1], s[2], src, lambda text: lex(protect_bytestrings(text)[0]))
+    stmts = [s for s in stmts if s[0] != "fnitem"]
+    all_stmts = list(stmts)
     if k.select:
         stmts = k.select(stmts)
     if k.stmt_filter:
         stmts = [s for i, s in enumerate(stmts) if k.stmt_filter(i, s)]
     tr = (k.tr_class or (IntTr if k.mode == "int" else NatTr if k.mode == "nat" else NatOptTr if k.mode == "natopt" else Tr))(k, src, btab)
     tr.decl_ty = {}
+    tr.all_stmts = all_stmts
     st = St()
     for key, (val, ty) in k.env.items():
         if isinstance(val, list):
@@ -2158,7 +2420,19 @@ def translate(k: MK):
         if k.monadic and not text.lstrip().startswith(("pure", "none", "some", ".ok", ".error", "return")) and not getattr(k, "raw_result", False):
             text = f"pure {text}" if re.fullmatch(r"[\w.']+|[⟨(\[#].*[⟩)\]]", text) else f"pure ({text})"
         out2.append(f"{ind2}{text}")
+    if k.kind == "fn" and not k.select:
+        tr.fn_k = fin                     # `return e;` anywhere in the body ends the function with the value e
     tr.seq(stmts, 0, st, out, ind, fin)
+    # checked word arithmetic rendered as the wrapping operator: accounted per source occurrence
+    if k.checked_counts is not None:
+        got = {op: len(v) for op, v in tr.checked_sites.items()}
+        if got != {op: n for op, n in k.checked_counts.items() if n}:
+            raise TranslateError(f"checked word operations {got} differ from the occurrences the kernel spec declares overflow-free {k.checked_counts}")
+    else:
+        both = sorted(op for op in tr.checked_sites if op in tr.wrapping_ops)
+        if both:
+            raise TranslateError(f"the kernel uses both the checked and the wrapping form of `{both[0]}` on words and the spec's `checked_ok` does not "
+                                 "say which occurrences are overflow-free (give a dict operator -> number of occurrences)")
     note = f" [{tr.n_checked} checked word op(s) rendered wrapping: overflow-freedom is a separate theorem]" if tr.n_checked else ""
     return (f"{k.attrs}/-- {k.doc} — GENERATED from `{'macro ' if k.kind == 'macro' else 'fn '}{k.fn}` in {k.file}{note} -/\n"
             f"def {k.lean_name} {k.params} : {k.ret_type} :={' do' if k.monadic else ''}\n"
